@@ -187,6 +187,20 @@ def build():
         return (BitCrcCalculator(cfg, table_based=False).calculate_checksum(a),
                 BitCrcCalculator(cfg, table_based=True).calculate_checksum(a)), [a]
 
+    def crc_custom(r):
+        """the generic calculator with a caller's own configuration - every switch of BitCrcConfiguration in both positions, both
+        register kinds, whole-octet messages (the byte-reversing switches are defined on octets); the same buffer is summed twice"""
+        from okdmr.dmrlib.etsi.crc.crc import BitCrcCalculator, BitCrcConfiguration
+        k = r.randrange(16)
+        w = r.choice([7, 8, 9, 16, 32])
+        cfg = BitCrcConfiguration(polynomial=r.getrandbits(w) | 1, width_bits=w, init_value=r.getrandbits(w) if k & 1 else 0,
+                                  final_xor_value=r.getrandbits(w) if k & 2 else 0, reverse_input_bytes=bool(k & 4),
+                                  reverse_output_bytes=bool(k & 8))
+        a = rbits(r, 8 * r.randrange(1, 9))
+        c = BitCrcCalculator(cfg, table_based=bool(r.getrandbits(1)))
+        return (c.calculate_checksum(a), c.calculate_checksum(a), BitCrcCalculator(cfg, table_based=False).calculate_checksum(a)), [a]
+
+    add("crc_custom", crc_custom, 16)
     add("crc8", crc8, 4)
     add("crc9", crc9, 4)
     add("crc16", crc16, 4)
@@ -868,6 +882,35 @@ def build():
         return (byteswap_bytes(d), bits_to_bytes(bytes_to_bits(d))), [d]
 
     add("utils", utils, 3)
+
+    def utils_bytearray(r):
+        """the bytearray form of the octet swap, on a caller-owned bytearray of even and of odd length"""
+        from okdmr.dmrlib.utils.bits_bytes import byteswap_bytearray
+        d = track(bytearray(r.getrandbits(8) for _ in range(r.choice([2, 3, 4, 7, 8, 34]))))
+        return (byteswap_bytearray(d), bytes(d), byteswap_bytearray(d), bytes(d), byteswap_bytearray(d)), [d]     # odd number of calls: two in-place swaps cancel
+
+    add("utils_bytearray", utils_bytearray, 6, mutable=False)
+
+    def ars_built_response(variant):
+        """one response object built from fields, kept by the caller: serialising it, measuring it and rendering it in any order"""
+        def f(r):
+            from okdmr.dmrlib.motorola import automatic_registration_service as A
+            P = A.ARSPDUType
+            ok = shared("ars_resp_ok", lambda: A.AutomaticRegistrationService(
+                first_header=A.FirstHeader(has_more_headers=True, is_acknowledged=False, is_control_message=True, pdu_type=P.ARS_DEVICE_OR_QUERY_RESPONSE),
+                response_second_header=A.ResponseSecondHeader(refresh_time=30)))
+            bad = shared("ars_resp_bad", lambda: A.AutomaticRegistrationService(
+                first_header=A.FirstHeader(has_more_headers=True, is_acknowledged=True, is_control_message=True, pdu_type=P.ARS_DEVICE_OR_QUERY_RESPONSE),
+                response_second_header=A.ResponseSecondHeader(failure_reason=list(A.FailureReason)[-1], refresh_time=1)))
+            o = ok if variant & 1 else bad
+            try:
+                return (o.as_bytes(), len(o)) if variant < 2 else repr(o), []
+            except Exception as ex:  # noqa
+                return ex, []
+        return f
+
+    for v in range(4):
+        add(f"ars_built_response_{v}", ars_built_response(v), 1, mutable=False)
     return S
 
 
